@@ -18,14 +18,18 @@ RULE = ("(a) histories: array shape (1-D length 1-6, 2-D up to 4x4), contents mi
         ">= 2 and a write followed by a read of another position (a); every instance of (b); distinct by case digest.")
 
 
-def mk_array(ns, shape, contents, secret_mask):
+def mk_array(ns, shape, contents, secret_mask, same_rows=()):
+    """same_rows: pairs (i, j), j < i: row i is the very row object of row j (Array([row] * n))"""
     A = ns.ar.Array
 
     def el(v, s):
         return ns.rt.PrivVal(v) if s else v
     if len(shape) == 1:
         return A([el(v, s) for v, s in zip(contents, secret_mask)])
-    return A([A([el(v, s) for v, s in zip(row, mrow)]) for row, mrow in zip(contents, secret_mask)])
+    rows = [A([el(v, s) for v, s in zip(row, mrow)]) for row, mrow in zip(contents, secret_mask)]
+    for i, j in same_rows:
+        rows[i] = rows[j]
+    return A(rows)
 
 
 def plain(ns, x):
@@ -44,7 +48,7 @@ def run_history(case, override_idx=None):
     rec = ns.rec
     shape = case["shape"]
     model = copy.deepcopy(case["contents"])
-    arr = mk_array(ns, shape, case["contents"], case["mask"])
+    arr = mk_array(ns, shape, case["contents"], case["mask"], case.get("same_rows", ()))
     info = {"secret_reads": 0, "write_then_other_read": False, "last_write": None, "oob": 0}
     for step, op in enumerate(case["ops"]):
         kind, idx, sec, wval, wsec = op
@@ -157,9 +161,21 @@ def draw_history(draw):
     else:
         contents = [draw(vals) for _ in range(shape[0])]
         mask = [draw(st.booleans()) for _ in range(shape[0])]
+    same_rows = []
+    if two and shape[0] >= 2 and draw(st.integers(0, 3)) == 0:
+        # the usual initialisation Array([row] * n), or one row object used twice: a write at a SECRET row index changes one
+        # element of one row (writes at a constant row index go to the shared object as in plain Python and are left out)
+        if draw(st.booleans()):
+            same_rows = [[i, 0] for i in range(1, shape[0])]
+        else:
+            i = draw(st.integers(1, shape[0] - 1))
+            same_rows = [[i, draw(st.integers(0, i - 1))]]
+        for i, j in same_rows:
+            contents[i] = list(contents[j])
+            mask[i] = list(mask[j])
     ops = []
     for _ in range(draw(st.integers(1, 7))):
-        kind = draw(st.sampled_from(["r", "r", "w", "r", "w", "rowcopy", "rowstore"] if two else ["r", "r", "w"]))
+        kind = draw(st.sampled_from(["r", "r", "w", "r", "w", "rowcopy", "rowstore"] if two and not same_rows else ["r", "r", "w"]))
         nidx = (2 if kind.startswith("row") else draw(st.integers(1, 2))) if two else 1
         idx, sec = [], []
         for d in range(nidx):
@@ -167,9 +183,11 @@ def draw_history(draw):
             i = draw(st.one_of(*([st.integers(0, n - 1)] * 9 + [st.sampled_from([-1, n, n + 1, -n, -n - 1])])))
             idx.append(i)
             sec.append(draw(st.sampled_from([True, True, False])))
+        if same_rows and kind == "w":
+            sec[0] = True
         ops.append([kind, idx, sec, draw(vals), draw(st.booleans())])
     return {"part": "history", "p": draw(st.sampled_from(["bn128", "bls12-381", "curve25519", 257])), "b": draw(st.sampled_from([3, 8, 16])),
-            "shape": shape, "contents": contents, "mask": mask, "ops": ops}
+            "shape": shape, "contents": contents, "mask": mask, "ops": ops, "same_rows": same_rows}
 
 
 def history_case(case, draw=None):
@@ -218,6 +236,8 @@ def history_shard(seed, n_examples):
             labels.append("trace-compared")
         if info.get("rowops"):
             labels.append("row-copy/store")
+        if case.get("same_rows"):
+            labels.append("shared-row-objects")
         stats.case(case if nt else None, nt, labels)
         if msg:
             raise core.Violation(case, msg, "history")
